@@ -70,7 +70,12 @@ def run(ctx):
             {"id": "a", "type": {"k": "INTEGER", "cons": genmod.cons(0, 255)}},
             {"id": "b", "type": {"k": "INTEGER", "cons": genmod.cons(0, 255)}, "opt": ("DEFAULT", "5", 5)},
             {"id": "c", "type": {"k": "BOOLEAN"}, "opt": "OPTIONAL"},
-            {"id": "d", "type": {"k": "INTEGER", "cons": genmod.cons(0, 65535)}, "opt": ("DEFAULT", "300", 300)},
+            {"id": "d", "type": {"k": "INTEGER", "cons": genmod.cons(0, 65535)}, "opt": ("DEFAULT", "300", 300)}]}),
+        # the same with zero / FALSE defaults, which a native build stores inline (the member is then always "present":
+        # kept apart from SqE, where presence of an addition is what distinguishes the two representations)
+        ("SqEz", {"k": "SEQUENCE", "ext": 1, "comps": [
+            {"id": "a", "type": {"k": "INTEGER", "cons": genmod.cons(0, 255)}},
+            {"id": "b", "type": {"k": "INTEGER", "cons": genmod.cons(0, 255)}, "opt": ("DEFAULT", "5", 5)},
             {"id": "z", "type": {"k": "INTEGER", "cons": genmod.cons(0, 255)}, "opt": ("DEFAULT", "0", 0)},
             {"id": "f", "type": {"k": "BOOLEAN"}, "opt": ("DEFAULT", "FALSE", False)}]}),
         # SET with DEFAULT components (F56, repaired: SET_encode_xer wrote a stored default, skipped an absent one)
